@@ -13,7 +13,7 @@ def still_fails(w):
         return r[0] == "CRASH"
     if kind == "bad_prefix":             # ParseError whose message lacks a location prefix
         import re
-        return r[0] == "PE" and not re.match(r"^(.*:\d+:\d+|[^:?]*): ", r[1]) or (r[0] == "PE" and r[1].startswith("?:"))
+        return r[0] == "PE" and not re.match(r"^(.*:\d+:\d+|[^:?]*): ", r[1]) or (r[0] == "PE" and (r[1].startswith("?:") or r[1].startswith("None:")))
     if kind == "dump_lacks":             # accepted, but the AST lacks what the spec requires
         return r[0] != "OK" or w["needle"] not in dump(r[1], False)
     if kind == "dump_has":               # accepted with a wrong construct in the AST
